@@ -210,7 +210,8 @@ PROPS = {
                 "out-of-range and negative; after every call the full dump (VerifDump: option word, FIFO, symbol, delimiter, encapsulation, "
                 "ID, category, level word, aux identity, content length), every public getter and String() (model: Stk.String / condString on the "
                 "model's configuration; specification: the C02 grammar on the configuration the independent-switch state stands for) are compared; "
-                "non-trivial = at least 2 calls",
+                "non-trivial = at least 2 calls. Extra step (testing, supports the theorems): 16 goroutines invert two or three options of a "
+                "mutex-enabled stack; the final option word is the initial one XOR the options inverted an odd number of times",
         "modelled": COMMON_MODELLED + ["auxiliary maps by identity; id 0 = a map the library allocated itself",
                                        "strings.ToUpper on level names: ASCII plus U+0131/U+017F (the only code points whose upper case is ASCII)"],
         "assumptions": ["SetID(\"_random\"/\"_addr\") (generated IDs) is excluded: the generator never produces the two magic words",
